@@ -1,7 +1,7 @@
-(* Corr_C12_proofs.v — the monitor used by Corr_C12_defs.judge accepts the model's own prediction for
-   every input that satisfies the guards of C12_signed_is_received (and whose service name is
-   lower-case, so that the documented rule for the HMAC key and the code's rule coincide), and
-   attributes the refutation witnesses to their findings. *)
+(* Corr_C12_proofs.v — the documented rule for the HMAC key and the code's rule coincide for every
+   world; the monitor used by Corr_C12_defs.judge accepts the model's own prediction for every input
+   that satisfies the guards of C12_signed_is_received, and attributes the refutation witnesses to
+   their findings. *)
 From V Require Import Base Base_proofs CorrBase Signer Signer_proofs Gen_Signer Corr_C12_defs.
 
 Lemma gen_lists_documented :
@@ -50,27 +50,27 @@ Proof.
   - rewrite (split_no_colon rest E). reflexivity.
 Qed.
 
-(* ---- and the documented variable is the one the code looks up, when the service name is lower-case ---- *)
+(* ---- and the documented variable is the one the code looks up, for every service name
+        (only for lower-case names before /repo c723740) ---- *)
 Theorem doc_hmac_agrees (w : world) :
-  lower_ascii (clean_ws (w_service w)) = clean_ws (w_service w) ->
   doc_hmac w = hmac_of_config (w_algs w) (w_service w) (w_environ w).
 Proof.
-  intros H. unfold doc_hmac, hmac_of_config.
-  rewrite lower_ascii_app, H. change (lower_ascii signing_key_suffix) with signing_key_suffix.
-  generalize (clean_ws (w_service w) ++ signing_key_suffix). intros name.
+  unfold doc_hmac, hmac_of_config.
+  rewrite lower_ascii_app. change (lower_ascii signing_key_suffix) with signing_key_suffix.
+  generalize (lower_ascii (clean_ws (w_service w)) ++ signing_key_suffix). intros name.
   induction (w_environ w) as [|[k v] t IH]; [reflexivity|].
   simpl. destruct (str_eqb (lower_ascii k) name); [|exact IH].
   exact (doc_parse_is_generate (w_algs w) v).
 Qed.
 
-(* the refuted general statement: documented rule = code's rule (known finding C12-K3) *)
+(* the former witness of C12-K3: a service name with upper-case letters and the documented variable *)
 Definition ex_world_k3 : world :=
   {| w_signer := Some 1; w_algs := [s_sha256]; w_service := s_mysvc;
      w_environ := [(upper_ascii (clean_ws s_mysvc ++ signing_key_suffix), s_sha256 ++ 58 :: s_x)];
      w_skip := false; w_inject := []; w_cookie_name := s_cookie_name; w_thost := s_backend |}.
 Lemma doc_hmac_case_witness :
   doc_hmac ex_world_k3 = HmacOn s_x /\
-  hmac_of_config (w_algs ex_world_k3) (w_service ex_world_k3) (w_environ ex_world_k3) = HmacOff.
+  hmac_of_config (w_algs ex_world_k3) (w_service ex_world_k3) (w_environ ex_world_k3) = HmacOn s_x.
 Proof. split; vm_compute; reflexivity. Qed.
 
 (* ---- what an upstream observes of a model request: the symbolic signature headers become headers ---- *)
@@ -105,7 +105,6 @@ Proof. intros k H. unfold all_protected. apply in_or_app. right. apply in_or_app
 
 Theorem monitor_accepts_model w parsed ident r0 b :
   let c := cfg_of_world w in
-  lower_ascii (clean_ws (w_service w)) = clean_ws (w_service w) ->
   has_prefix (r_path r0) [47] = true -> r_fragment r0 = [] -> r_body r0 = Some b ->
   conn_safe all_protected (r_headers (at_sign_time c parsed ident r0)) = true ->
   cl_canonical (at_sign_time c parsed ident r0) = true ->
@@ -116,7 +115,7 @@ Theorem monitor_accepts_model w parsed ident r0 b :
   holds_hmac w recv (canon_hmac gen_covh (of_obs recv)) (model_v_hmac w p) = true /\
   holds_body (body_bytes r0) recv = true.
 Proof.
-  intros c Hsvc Hp Hf Hbody Hconn Hcl p recv.
+  intros c Hp Hf Hbody Hconn Hcl p recv.
   assert (Hb : bare_target c = true) by reflexivity.
   destruct gen_lists_documented as (_&_&E1&E2).
   destruct documented_facts as (Hok&_&_&_).
@@ -127,7 +126,7 @@ Proof.
                 c parsed ident loopback r0 b Hb Hp Hf Hbody Hconn Hcl sk Hk Hs) as (V1&V2&V3).
     unfold p. rewrite E1, E2. fold dc. rewrite V1. unfold kid_published. rewrite V2, V3.
     simpl. apply str_eqb_refl.
-  - unfold holds_hmac, model_v_hmac. pose proof (doc_hmac_agrees w Hsvc) as Hd.
+  - unfold holds_hmac, model_v_hmac. pose proof (doc_hmac_agrees w) as Hd.
     destruct (doc_hmac w) as [|k|] eqn:Hdoc; try reflexivity.
     destruct (w_skip w) eqn:Hk; [reflexivity|]. simpl.
     assert (Hh : c_hmac c = Some k) by (unfold c, cfg_of_world; cbn [c_hmac]; rewrite <- Hd; reflexivity).
@@ -140,7 +139,7 @@ Qed.
 
 (* the guards are satisfiable, and the judge returns 0 on the model's prediction there (also with
    inject_request_headers naming covered headers); on the refutation witnesses it attributes the
-   falsified clause to K1, K2, K3 *)
+   falsified clause to K1, K2; the former K3 witness is judged 0 since /repo c723740 *)
 Definition s_svc : str := [115;118;99]. (* "svc" *)
 Definition ex_world : world :=
   {| w_signer := Some 1; w_algs := [s_sha256]; w_service := s_svc;
@@ -168,7 +167,7 @@ Example judge_model_hop_sig : judge (model_case ex_world ex_ident ex_hop_sig [])
 Proof. vm_compute. reflexivity. Qed.
 Example judge_model_cl0 : judge (model_case ex_world ex_ident ex_cl0 []) = 102.
 Proof. vm_compute. reflexivity. Qed.
-Example judge_model_k3 : judge (model_case ex_world_k3 ex_ident ex_post ex_parsed) = 103.
+Example judge_model_k3 : judge (model_case ex_world_k3 ex_ident ex_post ex_parsed) = 0.
 Proof. vm_compute. reflexivity. Qed.
 Example judge_cfg : judge (CCfg ex_world false) = 0 /\ judge (CCfg ex_world_k3 false) = 0.
 Proof. vm_compute. split; reflexivity. Qed.
